@@ -31,7 +31,7 @@ ENCODED = ["twisted.logger._flatten:flattenEvent", "twisted.logger._flatten:flat
            "twisted.logger._format:formatEvent", "twisted.logger._format:_formatEvent",
            "twisted.logger._format:formatWithCall", "twisted.logger._format:keycall",
            "twisted.logger._format:PotentialCallWrapper", "twisted.logger._format:CallMapping"]
-BOUNDS = {"quick": {"m": 2, "k": 2}, "thorough": {"m": 3, "k": 3}}
+BOUNDS = {"quick": {"m": 2, "k": 2, "dc": 1}, "thorough": {"m": 3, "k": 3, "dc": 2}}
 B = {}
 
 _in_alpha = _c55._in_alpha
@@ -322,7 +322,7 @@ TAILS = ("", "!r", "!s", "!a", ":", ":>9", "!r:<9", "()", ":{b}", "!s:>{b}")
 
 def double(t1: int, t2: int, va: int, second: int, ci: int) -> bool:
     """
-    pre: 0 <= va < NVAL and 0 <= second <= 1 and 0 <= ci < len(CHAINS[va]) and ci <= 2
+    pre: 0 <= va < NVAL and 0 <= second <= 1 and 0 <= ci < len(CHAINS[va]) and ci <= B['dc']
     pre: 0 <= t1 < len(TAILS) and 0 <= t2 < len(TAILS)
     post: _
     """
@@ -387,7 +387,7 @@ BOUNDS_TEXT = ("format strings '<{a' + body + '}>' with symbolic body of <= m ch
                "with entirely symbolic body of <= m characters (free_field), 'a' + one of the lookup chains that "
                "exist on the value (attribute, index, call syntax in last and non-last position; 40 chains in "
                "all) + symbolic tail of <= k characters = conversion / format spec / anything (chain), and two "
-               "fields {x t1} and {x|b t2} with x a chain and t1, t2 from 10 conversion / spec suffixes incl. "
+               "fields {x t1} and {x|b t2} with x one of the first dc+1 chains of the value and t1, t2 from 10 conversion / spec suffixes incl. "
                "nested specs (double; menus); values: int, str with quote / backslash / non-ASCII / newline, "
                "list, dict, object with attributes, callables returning text / an object / a fresh count per "
                "call, bytes, None, float, object whose format(x, '') differs from str(x)")
